@@ -26,12 +26,35 @@ REQUIRED = ["el_length", "el_nonneg", "el_total", "el_total_of_edges", "no_layer
             "el_moment", "el_h_moment", "el_w_moment", "valid_iff", "groups_partition", "no_layer_dropped_og",
             "og_total_of_valid", "og_length", "og_nonneg", "equal_split_valid", "mem_vicinity", "vicinity_preserves_valid",
             "self_mem_vicinity", "argminFirst_spec", "optMin_spec", "og_result", "og_cost_le_equal_split", "og_total",
-            "og_defined", "bestRep_spec", "G_eq_returned_cost", "og_rep_in_group", "og_heights_subset_sorted", "minfunc_nonneg",
+            "og_defined", "bestRep_spec", "G_eq_returned_cost", "og_rep_in_group", "og_heights_subset_sorted",
+            "og_heights_at_increasing_indices", "og_heights_descending_input", "minfunc_nonneg",
             "minfunc_eq_zero_iff", "moments_zero", "gctm_out_nonneg"]
 
 RT = 1e-9          # oracle tolerance on non-exact quantities (moments, costs on float inputs)
 RT_CORR = 1e-11    # model(Float) vs numpy on pow/sum pipelines (summation order, libm/SVML pow)
 F53 = 5.0 / 3.0
+
+
+def _single_thread_blas():
+    """scipy's L-BFGS-B spends its time in tiny BLAS calls; with a multi-threaded OpenBLAS on a loaded machine every call pays a
+    thread hand-off (measured: 8 s per GCTM call instead of 0.15 s).  Limit the OpenBLAS copies loaded in THIS process to one
+    thread (timing only: the matrices are at most 10 x 10, no kernel is ever split across threads)."""
+    import ctypes
+    import re
+    seen = set()
+    try:
+        for line in open("/proc/self/maps"):
+            m = re.search(r"(/\S*openblas\S*\.so\S*)", line)
+            if m and m.group(1) not in seen:
+                seen.add(m.group(1))
+                lib = ctypes.CDLL(m.group(1))
+                for name in ("scipy_openblas_set_num_threads64_", "scipy_openblas_set_num_threads",
+                             "openblas_set_num_threads64_", "openblas_set_num_threads"):
+                    if hasattr(lib, name):
+                        getattr(lib, name)(1)
+                        break
+    except OSError:
+        pass
 
 
 # ------------------------------------------------------------------------------------------------ generators
@@ -187,9 +210,13 @@ def oracle_el(pc, h, p, L, w, exact):
 
 
 def oracle_og(pc, h, p, L, R, np_seed, exact, exact_cost=None):
-    """the property on optimal_grouping (h strictly increasing), for the global-RNG state `numpy.random.seed(np_seed)`"""
+    """the property on optimal_grouping for the global-RNG state `numpy.random.seed(np_seed)`.  Only the clause "heights in
+    increasing order" needs strictly increasing input heights (theorem og_heights_subset_sorted, hypothesis hmono); every other
+    clause (L layers, non-negative, total, heights are input heights of their own group, no layer dropped, cost <= equal split)
+    is evaluated for unsorted / repeated / descending / integer-typed heights as well"""
     out = []
     N = len(p)
+    increasing = bool(numpy.all(numpy.diff(numpy.asarray(h, dtype=float)) > 0))
     exact_cost = exact if exact_cost is None else exact_cost
     h0, p0 = h.copy(), p.copy()
     state = numpy.random.get_state()
@@ -211,7 +238,7 @@ def oracle_og(pc, h, p, L, R, np_seed, exact, exact_cost=None):
     hs = set(h.tolist())
     if any(x not in hs for x in hL.tolist()):
         out.append(("og:height-not-input", "returned heights %s are not all input heights" % hL.tolist()))
-    if numpy.any(numpy.diff(hL) <= 0):
+    if increasing and numpy.any(numpy.diff(hL) <= 0):
         out.append(("og:heights-unsorted", "returned heights are not increasing: %s" % hL.tolist()))
     if numpy.all(p > 0):
         # the grouping is recoverable from the strengths: consecutive runs of layers whose sums are cn2_L
@@ -219,7 +246,7 @@ def oracle_og(pc, h, p, L, R, np_seed, exact, exact_cost=None):
         for c in cL.tolist():
             acc, j0 = 0.0, j
             while j < N and (acc < c if exact else acc < c * (1 - 1e-12)):
-                acc += p[j]
+                acc += float(p[j])
                 j += 1
             if j == j0 or not (acc == c if exact else _isclose(acc, c, 1e-11)):
                 okp = False
@@ -259,22 +286,44 @@ def oracle_gctm(pc, h, p, L):
         out.append(("gctm:mutates-input", "GCTM changed its arguments"))
     hL, cL = numpy.asarray(res[0], dtype=float), numpy.asarray(res[1], dtype=float)
     if hL.shape != (L,) or cL.shape != (L,):
-        return out + [("gctm:length", "GCTM(L=%d) returned shapes %s %s" % (L, hL.shape, cL.shape))], 0.0
+        return out + [("gctm:length", "GCTM(L=%d) returned shapes %s %s" % (L, hL.shape, cL.shape))], (0.0, 0.0, 0.0)
     if not (numpy.all(numpy.isfinite(hL)) and numpy.all(numpy.isfinite(cL))) or numpy.any(cL < 0) or numpy.any(hL < 0):
         out.append(("gctm:negative", "GCTM returned h=%s cn2=%s" % (hL.tolist(), cL.tolist())))
-        return out, 0.0
-    m0 = my_moments(h / HS, p / CS, L)
+        return out, (0.0, 0.0, 0.0)
+    m0 = my_moments(h0 / HS, p0 / CS, L)          # h0, p0: the profile the caller passed (h, p may have been modified)
     m1 = my_moments(hL / HS, cL / CS, L)
-    he, ce = pc.equivalent_layers(h, p, L)
+    he, ce = pc.equivalent_layers(h0.copy(), p0.copy(), L)
     f0 = float(((my_moments(he / HS, ce / CS, L) - m0) ** 2).sum())
     f1 = float(((m1 - m0) ** 2).sum())
     if not f1 <= f0 * (1 + 1e-9) + 1e-24 * float((m0 ** 2).sum()):
         out.append(("gctm:worse-than-start", "moment residual %r of the result exceeds %r of its own starting guess (N=%d, L=%d)"
                     % (f1, f0, len(p), L)))
-    rel = float(numpy.max(numpy.abs(m1 - m0) / m0))
-    if not rel <= 1.0:
-        out.append(("gctm:moments-off", "a scaled moment of the result is off by %.3g (relative) (N=%d, L=%d)" % (rel, len(p), L)))
-    return out, rel
+    relk = numpy.abs(m1 - m0) / m0
+    rel, rel0 = float(numpy.max(relk)), float(relk[0])
+    resn = float(numpy.linalg.norm(m1 - m0) / numpy.linalg.norm(m0))
+    band, band0, bandn = GCTM_BAND[min(L, 5)]
+    if not rel0 <= band0:
+        out.append(("gctm:total-cn2", "moment 0 (the total Cn2) of the result is off by %.3g (relative), allowed %.3g for L=%d (N=%d): "
+                    "sum %r vs %r" % (rel0, band0, L, len(p), float(cL.sum()), float(p0.sum()))))
+    if not rel <= band:
+        k = int(numpy.argmax(relk))
+        out.append(("gctm:moments-off", "scaled moment %d of the result is off by %.3g (relative), allowed %.3g for L=%d (N=%d)"
+                    % (k, rel, band, L, len(p))))
+    if not resn <= bandn:
+        out.append(("gctm:residual", "||moments(result) - moments(input)|| / ||moments(input)|| = %.3g, allowed %.3g for L=%d (N=%d)"
+                    % (resn, bandn, L, len(p))))
+    return out, (rel, rel0, resn)
+
+
+# "to optimiser accuracy" as MEASURED on the repaired tree (L-BFGS-B with its default tolerances on the scaled moments; see
+# notes/asbuilt/C18.md for the calibration): L -> (max relative error of any of the 2L-1 scaled moments, relative error of
+# moment 0 = total Cn2, relative 2-norm of the moment residual).  L = 1 starts at the exact answer.
+# Calibration (repaired tree, 5300 generated profiles, >= 950 per L, regular and irregular heights, N <= 100), worst observed:
+#   L=1: 6e-16 (all three);  L=2: 0.090 / 0.0045 / 0.031;  L=3: 0.179 / 0.0075 / 0.0061;  L=4: 0.146 / 0.020 / 0.0052;
+#   L=5: 0.199 / 0.137 / 0.0048.  The bands are 1.5-2.4 x the worst observed value (the distribution has a heavy tail — low
+#   profiles, where h/h_scaling << 1 makes the high moments invisible to the optimiser — so no 100 x margin is possible without
+#   making the clause empty; the previous band was 1.0 for every L).
+GCTM_BAND = {1: (1e-12, 1e-12, 1e-12), 2: (0.15, 0.01, 0.06), 3: (0.30, 0.02, 0.02), 4: (0.30, 0.04, 0.02), 5: (0.30, 0.25, 0.02)}
 
 
 # ------------------------------------------------------------------------------------------------ the check
@@ -307,6 +356,7 @@ def run(chk):
     import aotools
     rng = chk.rng
     quick = chk.tier == "quick"
+    _single_thread_blas()
     chk.rule = ("correspondence: Lean model at Float/Nat vs the real functions (equivalent_layers, _convert_splits_to_groups, "
                 "_vicinity, _G, _Gjit, _optGroupingMinimization, optimal_grouping with the restarts the global RNG produced, _moments, "
                 "_moments_minfunc): bit-exact on dyadic inputs (strengths, costs, split lists, tie-breaks, slab membership via "
@@ -319,7 +369,16 @@ def run(chk):
         "arange construction is reproduced by the Float driver only",
         "el_h_moment / el_w_moment assume every slab carries turbulence (finding el:empty-slab:nan-height otherwise)",
         "GCTM: 'reproduces the first 2L-1 moments to optimiser accuracy' is numeric only (scipy L-BFGS-B is external): the oracle "
-        "checks that the residual does not exceed that of the starting guess and that no scaled moment is off by more than 100 %",
+        "checks that the residual does not exceed that of the starting guess and that the scaled moments stay inside per-L bands "
+        "calibrated on the repaired tree (GCTM_BAND: L=1 exact to 1e-12; L=2..5 up to 15-30 % on the worst single moment, 1-25 % "
+        "on the total Cn2, 2-6 % on the norm of the moment vector — the measured accuracy of L-BFGS-B's default tolerances, see "
+        "notes/asbuilt/C18.md); the worst values of each run are recorded in the evidence notes",
+        "og_heights_subset_sorted ('heights in increasing order') has the hypothesis hmono: the INPUT heights are strictly "
+        "increasing (descending input comes back descending: theorem og_heights_descending_input); the part that needs no "
+        "ordering (returned heights are input heights at strictly increasing layer indices, one per group) is "
+        "og_heights_at_increasing_indices; the oracle evaluates every other clause on unsorted / repeated / descending heights too",
+        "integer-typed columns (int32/int64 h, p, w) are exercised by the oracle and the Float correspondence only (the model has "
+        "one scalar type)",
         "numpy.random.choice is external: the theorems hold for every list of valid restart split-lists; that the real generator "
         "only yields valid lists is checked on every restart the harness observes",
         "numpy.linspace(0,N,L+1,dtype=int)[1:-1] is evaluated in binary64 and can differ by one from floor(kN/L); its validity is "
@@ -381,7 +440,11 @@ def run(chk):
     pk = ["ones", "bits", "dyadic", "float", "zeros"]
     for it in range(n_el):
         N = rng.randint(2, NMAX) if it % 7 else rng.randint(2, 6)
+        if it % 25 == 3:
+            N = rng.randint(NMAX + 1, 100)        # up to the documented use (a 100-layer profile)
         L = rng.randint(1, N - 1)
+        if it % 25 == 3 and rng.random() < 0.5:
+            L = rng.randint(1, 10)
         kind = hk[it % len(hk)]
         if kind == "roundup":
             h = _roundup_profile(rng, N, L)
@@ -401,6 +464,18 @@ def run(chk):
         exact = skind in EXACT_P
         usew = rng.random() < 0.5
         w = numpy.array([rng.uniform(1, 60) for _ in range(N)]) if usew else None
+        idt = None
+        if it % 5 == 2:
+            # integer-typed columns (heights in metres, strengths as counts, wind in whole m/s — what a table read with
+            # dtype=int gives): the results are floats all the same
+            idt = rng.choice(["int64", "int32"])
+            h = numpy.round(h).astype(idt)
+            if skind in ("ones", "bits", "dyadic", "zeros") and (skind != "bits" or (N <= 30 and idt == "int64") or N <= 20):
+                p = numpy.round(p * (16 if skind in ("dyadic", "zeros") else 1)).astype("int64" if skind == "bits" else idt)
+            if usew or rng.random() < 0.5:
+                usew = True
+                w = numpy.array([rng.randint(1, 60) for _ in range(N)], dtype=idt)
+            chk.count("el:integer-dtype")
         if rng.random() < 0.2:                      # layers need not be sorted for this method
             perm = list(range(N))
             rng.shuffle(perm)
@@ -417,7 +492,8 @@ def run(chk):
                  sample={"fn": "equivalent_layers", "N": N, "L": L, "h": _fl(h), "p": _fl(p)} if it < 2 else None)
         chk.oracle_cases += 1
         replay = {"call": "equivalent_layers", "h": _fl(h), "p": _fl(p), "L": L, "w": None if w is None else _fl(w),
-                  "h_hex": _hex(h), "p_hex": _hex(p), "exact": exact}
+                  "h_hex": _hex(h), "p_hex": _hex(p), "exact": exact,
+                  "dtypes": [str(h.dtype), str(p.dtype), None if w is None else str(w.dtype)]}
         try:
             fails = oracle_el(pc, h, p, L, w, exact)
         except Exception as ex:                      # an exception on an in-domain profile is a failure of the property
@@ -650,16 +726,36 @@ def run(chk):
     n_og = 220 if quick else 4000
     for it in range(n_og):
         N = rng.randint(2, 12) if it % 3 else rng.randint(2, NMAX)
+        if it % 40 == 7:
+            N = rng.randint(NMAX + 1, 100)        # up to the documented use (a 100-layer profile, L = 5)
         L = 1 if it % 11 == 0 else rng.randint(1, N - 1)
+        if it % 40 == 7:
+            L = rng.randint(2, 6)
         R = rng.choice([0, 1, 2, 3] if quick else [0, 1, 2, 3, 5, 10])
-        hkind = ["dyadic", "irregular", "regular", "clustered"][it % 4]
-        h = _heights(rng, N, hkind, L)
-        if len(set(h.tolist())) != N:
-            continue
+        hkind = ["dyadic", "irregular", "regular", "clustered", "dups", "unsorted", "descending"][it % 7]
         skind = ["dyadic", "float", "ones", "zeros", "dyadic"][it % 5]
+        if hkind in ("unsorted", "descending"):
+            # only "heights in increasing order" needs increasing input heights; everything else is checked here
+            h = _heights(rng, N, "dyadic", L)
+            if hkind == "descending":
+                h = h[::-1].copy()
+            else:
+                perm = list(range(N))
+                rng.shuffle(perm)
+                h = h[perm]
+        else:
+            h = _heights(rng, N, hkind, L)
+        if hkind not in ("dups", "unsorted", "descending") and len(set(h.tolist())) != N:
+            continue
         p = _strengths(rng, N, skind)
         exact = skind in EXACT_P
-        exact_cost = exact and hkind == "dyadic"
+        exact_cost = exact and hkind in ("dyadic", "dups", "unsorted", "descending")
+        if it % 20 == 9 and hkind in ("dyadic", "dups", "unsorted", "descending") and exact:
+            # integer-typed heights and strengths
+            h = numpy.round(h * 4).astype("int64")
+            p = numpy.round(p * 16).astype("int64")
+            chk.count("og:integer-dtype")
+        chk.count("og:h=%s" % hkind)
         seed = rng.getrandbits(31)
         chk.case(("og", N, L, R, hkind, skind, seed))
         chk.count("og:L=1" if L == 1 else ("og:L=N-1" if L == N - 1 else "og:1<L<N-1"))
@@ -667,7 +763,8 @@ def run(chk):
         chk.count("og:p=%s" % skind)
         chk.oracle_cases += 1
         replay = {"call": "optimal_grouping", "R": R, "L": L, "h": _fl(h), "p": _fl(p), "numpy_seed": seed,
-                  "h_hex": _hex(h), "p_hex": _hex(p), "exact": exact, "exact_cost": exact_cost}
+                  "h_hex": _hex(h), "p_hex": _hex(p), "exact": exact, "exact_cost": exact_cost,
+                  "dtypes": [str(h.dtype), str(p.dtype), None]}
         try:
             fails = oracle_og(pc, h, p, L, R, seed, exact, exact_cost)
         except Exception as ex:
@@ -676,11 +773,13 @@ def run(chk):
             chk.fail(key, what, dict(replay, key=key))
 
     # ---------------------------------------------------------------- GCTM
-    n_g = 45 if quick else 600
-    worst = [0.0]
+    n_g = 60 if quick else 1000
+    worst = {}
     def _body_gctm(it):
-        N = rng.randint(3, NMAX)
+        N = rng.randint(3, NMAX) if it % 6 else rng.randint(NMAX + 1, 100)
         L = rng.randint(1, min(N - 1, 5))
+        if it < 10:
+            L = min(N - 1, 1 + it % 5)            # every L in every run
         h = _heights(rng, N, ["regular", "irregular"][it % 2], L)
         p = numpy.array([rng.uniform(0.02, 1) ** rng.randint(1, 4) for _ in range(N)]) * 10 ** rng.uniform(-14, -12)
         with numpy.errstate(all="ignore"):
@@ -694,7 +793,7 @@ def run(chk):
         replay = {"call": "GCTM", "L": L, "h": _fl(h), "p": _fl(p), "h_hex": _hex(h), "p_hex": _hex(p)}
         try:
             fails, rel = oracle_gctm(pc, h, p, L)
-            worst[0] = max(worst[0], rel)
+            worst[L] = tuple(max(a, b) for a, b in zip(worst.get(L, (0.0, 0.0, 0.0)), rel))
         except Exception as ex:
             fails = [("gctm:exception", "GCTM raised %s: %s" % (type(ex).__name__, ex))]
         for key, what in fails:
@@ -719,7 +818,59 @@ def run(chk):
             chk.corr_cases += 2
     for it in range(n_g):
         guarded('gctm', _body_gctm, it)
-    chk.notes.append("GCTM: worst relative error of a scaled moment over the generated profiles: %.3g (numeric only)" % worst[0])
+    chk.notes.append("GCTM accuracy measured in this run (numeric only), L: (worst relative error of a scaled moment, of moment 0 = "
+                     "total Cn2, relative norm of the moment residual) — "
+                     + "; ".join("L=%d: (%.3g, %.3g, %.3g) allowed (%g, %g, %g)" % ((L,) + worst[L] + GCTM_BAND[L]) for L in sorted(worst)))
+
+    # ---------------------------------------------------------------- sequences of compressions on the SAME arrays
+    # a caller compresses one profile with several methods / several L: every call must see the profile the caller holds.
+    # Each result on the shared float64 arrays is compared with the result on private copies; the arrays must stay untouched.
+    def _body_seq(it):
+        N = rng.randint(6, 30)
+        h = _heights(rng, N, ["regular", "irregular"][it % 2], 1)
+        p = numpy.array([rng.uniform(0.05, 1) for _ in range(N)]) * 10 ** rng.uniform(-14, -12)
+        w = numpy.array([rng.uniform(1, 60) for _ in range(N)])
+        Ls = sorted(rng.sample(range(1, min(N - 1, 5) + 1), 2))
+        seed = rng.getrandbits(31)
+        chk.case(("sequence", N, tuple(Ls), it))
+        chk.count("sequence")
+        chk.oracle_cases += 1
+        h0, p0, w0 = h.copy(), p.copy(), w.copy()
+        base = {"h": _fl(h0), "p": _fl(p0), "w": _fl(w0), "h_hex": _hex(h0), "p_hex": _hex(p0), "Ls": Ls, "numpy_seed": seed}
+
+        def og(hh, pp, L):
+            st = numpy.random.get_state()
+            try:
+                numpy.random.seed(seed)
+                return pc.optimal_grouping(2, L, hh, pp)
+            finally:
+                numpy.random.set_state(st)
+        calls = []
+        for L in Ls:
+            calls += [("GCTM", L, lambda hh, pp, ww, L=L: pc.GCTM(hh, pp, L)),
+                      ("equivalent_layers", L, lambda hh, pp, ww, L=L: pc.equivalent_layers(hh, pp, L, w=ww)),
+                      ("optimal_grouping", L, lambda hh, pp, ww, L=L: og(hh, pp, L))]
+        with numpy.errstate(all="ignore"):
+            for k, (name, L, fn) in enumerate(calls):
+                fresh = fn(h0.copy(), p0.copy(), w0.copy())
+                got = fn(h, p, w)
+                hist = " -> ".join("%s(L=%d)" % (n_, l_) for n_, l_, _ in calls[:k + 1])
+                same = len(fresh) == len(got) and all(
+                    numpy.shape(a) == numpy.shape(b) and numpy.allclose(a, b, rtol=1e-9, atol=0, equal_nan=True) for a, b in zip(fresh, got))
+                if not same:
+                    chk.fail("sequence:%s:depends-on-earlier-calls" % name,
+                             "on the same arrays, call %d of the sequence %s returns %s, but %s on a fresh copy of the profile (N=%d)"
+                             % (k + 1, hist, [numpy.asarray(x).tolist() for x in got][:2], [numpy.asarray(x).tolist() for x in fresh][:2], N),
+                             dict(base, call="sequence", key="sequence:%s:depends-on-earlier-calls" % name, upto=k + 1))
+                    break
+                if not (numpy.array_equal(h, h0) and numpy.array_equal(p, p0) and numpy.array_equal(w, w0)):
+                    chk.fail("%s:mutates-input" % {"GCTM": "gctm", "equivalent_layers": "el", "optimal_grouping": "og"}[name],
+                             "after the sequence %s the caller's arrays have changed (h[:3] %s -> %s, p[:3] %s -> %s)"
+                             % (hist, _fl(h0[:3]), _fl(h[:3]), _fl(p0[:3]), _fl(p[:3])),
+                             dict(base, call="sequence", key="mutates-input", upto=k + 1))
+                    break
+    for it in range(6 if quick else 60):
+        guarded('sequence', _body_seq, it)
 
     numpy.random.set_state(np_state)
 
@@ -747,8 +898,13 @@ def replay(rec):
         return chk.finish()
     h = numpy.array([common.h2f(x) for x in r["h_hex"].split()])
     p = numpy.array([common.h2f(x) for x in r["p_hex"].split()])
+    dts = r.get("dtypes") or [None, None, None]
+    if dts[0]:
+        h = h.astype(dts[0])
+    if dts[1]:
+        p = p.astype(dts[1])
     if call == "equivalent_layers":
-        w = None if r.get("w") is None else numpy.array(r["w"], dtype=float)
+        w = None if r.get("w") is None else numpy.array(r["w"], dtype=dts[2] or float)
         fails = oracle_el(pc, h, p, r["L"], w, r.get("exact", False))
     elif call == "optimal_grouping":
         fails = oracle_og(pc, h, p, r["L"], r["R"], r["numpy_seed"], r.get("exact", False), r.get("exact_cost", False))
